@@ -781,6 +781,11 @@ pub fn analyze_async(sc: &Scenario, info: &PlanInfo, out: &ExecOut) -> Vec<Viol>
     let mut in_wait = false;
     let mut open_at_call = 0usize;
     let mut unfinished_at_call = false;
+    // thread-local systems belong to a dispatch and run inside wait(): the first wait() that returns after
+    // one or more dispatches has to run every top-level thread-local system exactly once
+    let tl_nodes: Vec<usize> = info.nodes.iter().filter(|x| x.kind == Kind::Tl && x.parent.is_none()).map(|x| x.id).collect();
+    let mut dispatched_since_wait = false;
+    let mut tl_begun_at_wait: Vec<u32> = vec![0; n];
     let stage_nodes: Vec<usize> = info.nodes.iter().filter(|x| !(x.kind == Kind::Tl && x.parent.is_none())).map(|x| x.id).collect();
     let all_done = |begun: &Vec<u32>, ended: &Vec<u32>, issued: u32| -> Option<usize> {
         for id in &stage_nodes {
@@ -807,13 +812,26 @@ pub fn analyze_async(sc: &Scenario, info: &PlanInfo, out: &ExecOut) -> Vec<Viol>
                     unfinished_at_call = all_done(&begun, &ended, issued).is_some();
                     if op == 'W' {
                         in_wait = true;
+                        tl_begun_at_wait = begun.clone();
                     }
                 } else {
                     in_wait = false;
                     if op == 'D' && e.aux != 9 {
                         issued += 1;
+                        dispatched_since_wait = true;
                     }
                     let returned_ok = e.aux != 9;
+                    if op == 'W' && returned_ok {
+                        if dispatched_since_wait && sc.panics.is_empty() {
+                            for t in &tl_nodes {
+                                let ran = begun[*t] - tl_begun_at_wait[*t];
+                                if ran != 1 {
+                                    vs.push(v("C12", "wait-did-not-run-thread-local-once", format!("wait() (call {}) returned after a dispatch but thread-local system {} ran {} times inside it", id, t, ran)));
+                                }
+                            }
+                        }
+                        dispatched_since_wait = false;
+                    }
                     match op {
                         'W' | 'X' | 'O' | 'M' | 'S' if returned_ok => {
                             if !open.is_empty() {
